@@ -240,14 +240,23 @@ def main(argv=None):
         print("note: known finding %s did not reproduce in this run (stale or outside this tier's bound)" % fid)
     if not new:
         return 0
-    for key, lst, n in new[:25]:
+    limit = int(os.environ.get("VERIF_MAXVIOL", "12"))
+    for key, lst, n in new[:limit]:
         v = lst[0]
         rp = write_replay(pid, tier, v)
         print("VIOLATION property=%s replay=%s" % (pid, rp))
         print("  clause=%s features=%s count=%d\n  expected=%s\n  observed=%s" % (
-            v.clause, jdump(v.features), n, jdump(v.expected)[:600], jdump(v.observed)[:600]))
-    if len(new) > 25:
-        print("  ... and %d more distinct (clause, features) keys" % (len(new) - 25))
+            v.clause, jdump(v.features), n, jdump(v.expected)[:400], jdump(v.observed)[:400]))
+    if len(new) > limit:
+        print("  ... and %d more distinct (clause, features) keys; per clause:" % (len(new) - limit))
+        per = {}
+        for key, lst, n in new:
+            per[key[0]] = per.get(key[0], 0) + 1
+        for c, k in sorted(per.items()):
+            print("      %-40s %d keys" % (c, k))
+    if os.environ.get("VERIF_VIOLSUMMARY"):
+        for key, lst, n in new:
+            print("  VKEY %s %s n=%d" % (key[0], key[1], n))
     return 1
 
 
